@@ -40,7 +40,7 @@ def run(d):
 ds = sorted(x for x in os.listdir(V + "/seeded") if os.path.isdir(os.path.join(V, "seeded", x)))
 if len(sys.argv) > 1:
     ds = [d for d in ds if d in sys.argv[1:]]
-with ThreadPoolExecutor(max_workers=5) as ex:
+with ThreadPoolExecutor(max_workers=8) as ex:
     res = list(ex.map(run, ds))
 prev = {}
 if len(sys.argv) > 1 and os.path.exists(V + "/seeded/MATRIX.json"):
